@@ -1,4 +1,4 @@
-from . import fixedchk, sem
+from . import c09, c10, c16, fixedchk, sem
 
 CHECKS = {
     "C01": sem.run,
@@ -6,5 +6,8 @@ CHECKS = {
     "C05": fixedchk.c05,
     "C06": fixedchk.c06,
     "C08": fixedchk.c08,
+    "C09": c09.run,
+    "C10": c10.run,
+    "C16": c16.run,
     "C17": fixedchk.c17,
 }
